@@ -547,6 +547,21 @@ func (s *Store) applyStale(not string, set models.AttributeSetter) {
 }
 
 func applyUser(u UserSpec, set models.AttributeSetter) {
+	if u.Overridden {
+		// defaults first: one for every field the record goes on to set itself
+		d := UserSpec{}
+		def := func(v string) string {
+			if v != "" {
+				return "default-stale-marker"
+			}
+			return ""
+		}
+		d.Email, d.FullName, d.GivenName, d.Surname, d.Username, d.UserIDAttr = def(u.Email), def(u.FullName), def(u.GivenName), def(u.Surname), def(u.Username), def(u.UserIDAttr)
+		for _, c := range u.Custom {
+			d.Custom = append(d.Custom, CustomAttr{Name: c.Name, FriendlyName: "default", NameFormat: c.NameFormat, Values: []string{"default-stale-marker"}})
+		}
+		applyUser(d, set)
+	}
 	if u.Email != "" {
 		set.SetEmail(u.Email)
 	}
